@@ -201,7 +201,8 @@ func c09Slots(seed []byte) []span {
 	return out
 }
 
-var c09MutNames = []string{"delete", "truncate-to-1", "duplicate", "unquote", "add-quote", "swap-case", "replace-by-other", "insert-semicolon", "insert-equals", "empty-quotes", "append-crlf", "nul"}
+var c09MutNames = []string{"delete", "truncate-to-1", "duplicate", "unquote", "add-quote", "swap-case", "replace-by-other", "insert-semicolon", "insert-equals", "empty-quotes", "append-crlf", "nul",
+	"lone-dquote", "lone-backslash", "encoded-word-start", "very-long", "high-bytes", "fold-inside", "append-dquote", "lone-angle", "percent-escape", "star-param"}
 
 func c09Mutate(tok []byte, kind int, other []byte) []byte {
 	switch kind {
@@ -238,8 +239,28 @@ func c09Mutate(tok []byte, kind int, other []byte) []byte {
 		return []byte(`""`)
 	case 10:
 		return append(append([]byte{}, tok...), '\r', '\n')
-	default:
+	case 11:
 		return append(append([]byte{}, tok[:len(tok)/2]...), append([]byte{0}, tok[len(tok)/2:]...)...)
+	case 12:
+		return []byte(`"`)
+	case 13:
+		return []byte(`\`)
+	case 14:
+		return []byte("=?utf-8?q?")
+	case 15:
+		return bytes.Repeat([]byte("x"), 5000)
+	case 16:
+		return []byte{0xff, 0xfe, 0x80, 'a'}
+	case 17:
+		return append(append([]byte{}, tok[:len(tok)/2]...), append([]byte("\r\n "), tok[len(tok)/2:]...)...)
+	case 18:
+		return append(append([]byte{}, tok...), '"')
+	case 19:
+		return []byte("<")
+	case 20:
+		return []byte("%41%")
+	default:
+		return append([]byte("*0*=utf-8''"), tok...)
 	}
 }
 
@@ -264,7 +285,7 @@ func init() {
 	vf.Register(&vf.Check{
 		ID: "C09", Title: "EML parsing is total",
 		Run: func(r *vf.Run) {
-			r.SetRule("(a) every byte string of length <= 6 (thorough 7) over {a : SP CR LF ; = \" -} as whole input; (b) structure-aware mutants of 8 valid seeds (plain 8bit/QP/base64, alternative, mixed+attachment, mixed>related>alternative, two hand-written): every slot (header name, value, parameter name/value, boundary line, blank line, continuation) × 12 mutations — all single and all pairs of slot mutations (thorough: triples around Content-Type/Disposition); (c) for every seed and single mutant a reader failing at every offset (seeds) / 8 offsets (mutants), a one-byte reader, and the file entry point; oracle: the call returns (no panic) within the watchdog; distinct by input bytes and mode")
+			r.SetRule("(a) every byte string of length <= 6 (thorough 7) over {a : SP CR LF ; = \" -} as whole input; (b) structure-aware mutants of 8 valid seeds (plain 8bit/QP/base64, alternative, mixed+attachment, mixed>related>alternative, two hand-written): every slot (header name, value, parameter name/value, boundary line, blank line, continuation) × 22 mutations — all single and all pairs of slot mutations (thorough: triples around Content-Type/Disposition); (c) for every seed and single mutant a reader failing at every offset (seeds) / 8 offsets (mutants), a one-byte reader, and the file entry point; oracle: the call returns (no panic) within the watchdog; distinct by input bytes and mode")
 			r.Assume("termination is decided by a 30 s per-case watchdog (a bound, not a proof)")
 			dir := filepath.Join(os.Getenv("VERIF_WORK"), fmt.Sprintf("c09-%d", os.Getpid()))
 			_ = os.MkdirAll(dir, 0o755)
